@@ -36,13 +36,13 @@ def run(rep: C.Report, pest, thorough: bool) -> None:
     fp_first: dict = {}
     parsers: dict[str, object] = {}
     for fam, maxlen, sample in fams:
-        cfg = write_cfg(f"PestVM_{fam}", {"Family": fam, "MaxLen": maxlen, "Starts": "zero", "Sample": sample}, ["Refines", "Balanced", "Discipline", "RestoreExact", "FurthestInRange", "Emit"])
+        cfg = write_cfg(f"PestVM_{fam}", {"Family": fam, "MaxLen": maxlen, "Starts": "zero", "Sample": sample}, ["Refines", "Balanced", "Discipline", "RestoreExact", "FurthestInRange", "DeltaAgrees", "Emit"])
         lines: list[dict] = []
         st = C.run_tlc("PestVM", cfg, on_line=lambda ln: lines.append(C.decode_printt(ln)), workers=8, extra=["-seed", str(C.SEED + 3)], tag=f"PestVM_{fam}", xss="512m", timeout=2400)
         if st.error:
             raise C.MachineryError(f"PestVM[{fam}]: the machine model does not refine PestSem / breaks its own invariants: {st.error}\n" + "\n".join(st.tail[-25:]))
         C.require_tlc_ok(st, f"PestVM {fam}")
-        rep.add_tlc(st, f"PestVM[{fam}] Refines, Balanced, Discipline, RestoreExact, FurthestInRange (MaxLen={maxlen}, sample={sample or 'all'})")
+        rep.add_tlc(st, f"PestVM[{fam}] Refines, Balanced, Discipline, RestoreExact, FurthestInRange, DeltaAgrees (MaxLen={maxlen}, sample={sample or 'all'})")
         for r in lines:
             gtext = gast.print_grammar(r["g"], style="min")
             if gtext not in parsers:
